@@ -143,7 +143,7 @@ def _call_serialise(t, hot, cold, h):
 
 def obligations():
     fs = [ProblemTable.pinch_idx, ProblemTable.pinch_temperatures]
-    return [
+    obs = [
         Obligation("C06.idx.b", _ob_idx(5), kind="bounded", bound="residual columns of 2..5 rows, every cell symbolic", functions=fs,
                    expect=("hot_pinch_row_is_a_zero", "hot_pinch_rule", "cold_pinch_rule", "absent_only_if_no_zero"), max_paths=20000,
                    doc="zero rows, order, between-ness, threshold rule, absent only without a zero; temperatures are T[row]"),
@@ -155,3 +155,6 @@ def obligations():
         Obligation("C06.serialise", ob_serialise, kind="proof", functions=[EnergyTarget.serialize_json], expect=("collapsed_value", "both_reported_hot"),
                    doc="the record's pinch block carries the two temperatures; equal pinches collapse to one field (path-complete)"),
     ]
+    from . import C01
+    from .C09 import _deps
+    return obs + _deps(C01, ("C01.di.readout",), "C06.dep.", "the pinch temperatures of a direct-integration record are read from the shifted cascade as computed (before display rounding)")
